@@ -21,31 +21,31 @@ Section Bytes.
   Variable dist_of : Z -> list PCP -> option F64 -> outcome F64.
   Hypothesis dist_total : forall m cps e, exists d, dist_of m cps e = Done d.
 
-  (* an in-memory buffer: a value, or -- only for a UTF-16LE stream -- the
-     UnexpectedEof of the recorded class D6; never a panic, never out of fuel *)
-  Lemma from_bytes_beatmap b :
-    (exists v, decode_bytes_beatmap dist_of b = IoDone v) \/
-    (decode_bytes_beatmap dist_of b = IoErr UnexpectedEof /\ fst (from_bom b) = Utf16LE).
+  (* an in-memory buffer: always a value -- never an Err (the reader of an
+     in-memory buffer reports no failure; the UnexpectedEof of the former class
+     D6 is repaired), never a panic, never out of fuel *)
+  Lemma from_bytes_beatmap b : exists v, decode_bytes_beatmap dist_of b = IoDone v.
   Proof.
     unfold decode_bytes_beatmap.
-    pose proof (read_all_lines_ok decode_utf8_lossy_spec (mk_reader b [])) as Hok.
-    destruct (read_all_lines (mk_reader b [])) as [lines|k|w|] eqn:E; cbn in Hok; try contradiction.
-    - left. cbn [io_bind]. destruct (decode_beatmap_total dist_of dist_total lines) as (bv & ->).
-      exists bv. reflexivity.
-    - right. cbn [io_bind]. destruct (clean_stream_error_only_le b [] k faultless_nil eq_refl E) as (H1 & ->).
-      split; [reflexivity | exact H1].
+    destruct (clean_stream_never_fails b [] faultless_nil) as (lines & ->). cbn [io_bind].
+    destruct (decode_beatmap_total dist_of dist_total lines) as (bv & ->).
+    exists bv. reflexivity.
   Qed.
 
-  Lemma from_bytes_hit_objects b :
-    (exists v, decode_bytes_hit_objects dist_of b = IoDone v) \/
-    (decode_bytes_hit_objects dist_of b = IoErr UnexpectedEof /\ fst (from_bom b) = Utf16LE).
+  Lemma from_bytes_hit_objects b : exists v, decode_bytes_hit_objects dist_of b = IoDone v.
   Proof.
     unfold decode_bytes_hit_objects.
-    pose proof (read_all_lines_ok decode_utf8_lossy_spec (mk_reader b [])) as Hok.
-    destruct (read_all_lines (mk_reader b [])) as [lines|k|w|] eqn:E; cbn in Hok; try contradiction.
-    - left. cbn [io_bind]. destruct (decode_hit_objects_total dist_of dist_total lines) as (hv & ->).
-      exists hv. reflexivity.
-    - right. cbn [io_bind]. destruct (clean_stream_error_only_le b [] k faultless_nil eq_refl E) as (H1 & ->).
-      split; [reflexivity | exact H1].
+    destruct (clean_stream_never_fails b [] faultless_nil) as (lines & ->). cbn [io_bind].
+    destruct (decode_hit_objects_total dist_of dist_total lines) as (hv & ->).
+    exists hv. reflexivity.
   Qed.
 End Bytes.
+
+(* TimingPoints (no curve, no hypothesis) *)
+Lemma from_bytes_timing_points_lines b :
+  exists lines, read_all_lines (mk_reader b []) = IoDone lines /\
+    decode_bytes_timing_points b = io_of_outcome (decode_timing_points lines).
+Proof.
+  destruct (clean_stream_never_fails b [] faultless_nil) as (lines & H). exists lines.
+  split; [exact H|]. unfold decode_bytes_timing_points. rewrite H. reflexivity.
+Qed.
